@@ -156,6 +156,18 @@ theorem odvWalk_sticky (c : Nat) : ∀ (n : Nat) (l : List Entry) (s : Sys),
       · exact enableVar_sticky s _ h1
       · exact h1
 
+theorem odvRest_sticky (c n : Nat) (l : List Entry) (s1 : Sys) :
+    (odvRest c n l s1).failed = false → s1.failed = false := by
+  intro h
+  unfold odvRest at h
+  split at h
+  · exact h
+  · split at h
+    · simp [Sys.fail] at h
+    · split at h
+      · exact h
+      · exact odvWalk_sticky _ _ _ _ h
+
 theorem onDisabledVar_sticky (s : Sys) (c : Nat) : (onDisabledVar s c).failed = false → s.failed = false := by
   intro h
   simp only [onDisabledVar] at h
